@@ -16,6 +16,7 @@ type Lexer struct {
 	reader             reader.LexerReader
 	LastComment        string
 	LastSpecialComment string
+	isInBlockComment   bool
 }
 
 var reserved map[string]any = make(map[string]any)
@@ -271,6 +272,22 @@ func (l *Lexer) skipLineComment() {
 }
 
 func (l *Lexer) Advance() bool {
+	// =begin ... =end: the body is text, not code (a quote in it opens no
+	// string). Every line of the comment yields its line break, so the rows
+	// of what follows stay right.
+	if l.isInBlockComment || l.reader.AtLineStartWith("=begin") {
+		isLastLine := l.isInBlockComment && l.reader.AtLineStartWith("=end")
+		l.isInBlockComment = !isLastLine
+
+		if !l.reader.SkipLine() {
+			return false
+		}
+
+		l.tok = '\n'
+
+		return true
+	}
+
 	l.skipSpace()
 	char := l.reader.Read()
 
